@@ -3282,6 +3282,12 @@ def unpickle_setwrapper(obj, attrname, items):
     wrapper = wrapper_cls(obj, attr)
     setdata = obj._vals_.get(attr)
     if setdata is None: setdata = obj._vals_[attr] = SetData()
+    if not setdata.is_fully_loaded and attr.reverse.is_collection:
+        # items of a many-to-many collection do not carry the link themselves
+        new_items = set(items) - setdata
+        if setdata.removed: new_items -= setdata.removed
+        setdata |= new_items
+        attr.reverse.db_reverse_add(new_items, obj)
     setdata.is_fully_loaded = True
     setdata.absent = None
     setdata.count = len(setdata)
